@@ -8,7 +8,9 @@ from ..common import MachineryError, Run, dump_ndjson, pmap, scratch
 VARIANTS = [{}, {"min_coverage": 0.9}, {"cluster_threshold": 2.0}, {"min_coverage": 0.25, "max_cell_size": 8}, {"pos_tol": 0.5, "pos_tol_mode": "absolute"},
             {"min_coverage": 0.97}, {"bond_threshold": 0.5}, {"cluster_threshold": 4.5},
             # the documented `radii` parameter of the classifier: the class must match the dimensionality with THOSE radii
-            {"radii": "vdw_covalent"}, {"radii": "vdw_covalent", "cluster_threshold": 2.0}, {"radii": "table:1.6", "cluster_threshold": 2.0}]
+            {"radii": "vdw_covalent"}, {"radii": "vdw_covalent", "cluster_threshold": 2.0}, {"radii": "table:1.6", "cluster_threshold": 2.0},
+            # position tolerances given as a float array (relative mode, the default)
+            {"pos_tol": "array:0.3,0.75"}]
 
 
 def run(tier):
